@@ -238,3 +238,407 @@ func c05r7(c *RC) {
 	}
 	_ = nck
 }
+
+// C05-R8: after the partitioner has assigned row i to partition shards[i],
+// exactly row i is buffered for exactly that partition, nothing buffered is
+// overwritten or left unwritten.
+//
+// Two loops do this: the worker's partitioned write loop (fixed-size buffers
+// with per-partition fill counts) and the local executor's bufferOutput (lists
+// of frames appended to).  The rule pins down the index arithmetic as linear
+// forms and the tests by evaluation:
+//
+//	worker:  p := shards[i]; j := lens[p];
+//	         Copy(buf[p].Slice(j, j+1), in.Slice(i, i+1)); lens[p]++; count[p]++;
+//	         flush buf[p] (the whole frame) and reset lens[p] exactly when lens[p] == size of buf[p];
+//	         afterwards every partition with lens[p] != 0 writes buf[p].Slice(0, lens[p])
+//	local:   p := shards[i]; a new frame is started exactly when there is none or the last is full;
+//	         the last frame of buf[p] is replaced by AppendFrame(itself, in.Slice(i, i+1))
+func c05r8(c *RC) {
+	pr := c.P
+	sliceOfRow := func(fn *Func, le *linEnv, e ast.Expr, base string, row lin) bool {
+		k, ok := ast.Unparen(e).(*ast.CallExpr)
+		if !ok || fn.Pkg.CalleeName(k) != "frame.Frame.Slice" || len(k.Args) != 2 {
+			return false
+		}
+		sel, ok := k.Fun.(*ast.SelectorExpr)
+		if !ok || strings.ReplaceAll(expr(sel.X), " ", "") != base {
+			return false
+		}
+		hi := lin{}
+		hi.addScaled(row, 1)
+		hi[""] += 1
+		return le.norm(k.Args[0], 0).String() == row.String() && le.norm(k.Args[1], 0).String() == hi.String()
+	}
+	// ------------------------------------------------------------ worker
+	if fn := c.MustFn("exec.(*worker).Run"); fn != nil {
+		fq := fn.QName()
+		le := newLinEnv(pr, fn)
+		// do not expand j := lens[p] etc.: use a private env without defs for index checks
+		le.defs = map[types.Object]ast.Expr{}
+		var loop *ast.ForStmt
+		var shards, iv string
+		ast.Inspect(fn.Body, func(n ast.Node) bool {
+			f, ok := n.(*ast.ForStmt)
+			if !ok {
+				return true
+			}
+			v, _, okL := loopUpTo(fn, f)
+			if !okL {
+				return true
+			}
+			for _, st := range f.Body.List {
+				if a, ok := st.(*ast.AssignStmt); ok && len(a.Lhs) == 1 && len(a.Rhs) == 1 {
+					if ix, ok := a.Rhs[0].(*ast.IndexExpr); ok && expr(ix.Index) == v {
+						if tv := fn.Pkg.Info.Types[ix.X]; tv.Type != nil && typeString(tv.Type) == "[]int" {
+							// candidate: p := shards[i], and lens[p] is used below
+							uses := false
+							ast.Inspect(f.Body, func(m ast.Node) bool {
+								if inc, ok := m.(*ast.IncDecStmt); ok {
+									if ix2, ok := inc.X.(*ast.IndexExpr); ok && expr(ix2.Index) == expr(a.Lhs[0]) {
+										uses = true
+									}
+								}
+								return true
+							})
+							if uses {
+								loop, shards, iv = f, expr(ix.X), v
+							}
+						}
+					}
+				}
+			}
+			return true
+		})
+		if loop == nil {
+			c.Fail(fq+"|partition-buffers", pr.Pos(fn.Body.Pos()), "the worker's per-row partitioning loop (p := shards[i] with per-partition fill counts) was not found")
+		} else {
+			pV, jV, lensV, bufV := "", "", "", ""
+			for _, st := range loop.Body.List {
+				a, ok := st.(*ast.AssignStmt)
+				if !ok || len(a.Lhs) != 1 || len(a.Rhs) != 1 {
+					continue
+				}
+				ix, ok := a.Rhs[0].(*ast.IndexExpr)
+				if !ok {
+					continue
+				}
+				switch {
+				case expr(ix.X) == shards && expr(ix.Index) == iv:
+					pV = expr(a.Lhs[0])
+				case pV != "" && expr(ix.Index) == pV:
+					jV, lensV = expr(a.Lhs[0]), expr(ix.X)
+				}
+			}
+			var copyAt, incAt, cntAt = -1, -1, -1
+			var flush *ast.IfStmt
+			inV := ""
+			for si, st := range loop.Body.List {
+				switch x := st.(type) {
+				case *ast.ExprStmt:
+					k, ok := x.X.(*ast.CallExpr)
+					if !ok || fn.Pkg.CalleeName(k) != "frame.Copy" || len(k.Args) != 2 {
+						continue
+					}
+					// destination buf[p].Slice(j, j+1)
+					if d, ok := ast.Unparen(k.Args[0]).(*ast.CallExpr); ok {
+						if sel, ok := d.Fun.(*ast.SelectorExpr); ok {
+							if ix, ok := ast.Unparen(sel.X).(*ast.IndexExpr); ok && expr(ix.Index) == pV {
+								bufV = expr(ix.X)
+							}
+						}
+					}
+					if s2, ok := ast.Unparen(k.Args[1]).(*ast.CallExpr); ok {
+						if sel, ok := s2.Fun.(*ast.SelectorExpr); ok {
+							inV = expr(sel.X)
+						}
+					}
+					if bufV != "" && sliceOfRow(fn, le, k.Args[0], bufV+"["+pV+"]", lin{jV: 1}) && sliceOfRow(fn, le, k.Args[1], inV, lin{iv: 1}) {
+						copyAt = si
+					}
+				case *ast.IncDecStmt:
+					if ix, ok := x.X.(*ast.IndexExpr); ok && expr(ix.Index) == pV && x.Tok == token.INC {
+						if expr(ix.X) == lensV {
+							if incAt >= 0 {
+								incAt = -2
+							} else {
+								incAt = si
+							}
+						} else {
+							cntAt = si
+						}
+					}
+				case *ast.IfStmt:
+					flush = x
+				}
+			}
+			c.Check(pV != "" && jV != "" && copyAt >= 0, fq+"|row-i-copied-to-its-partition-slot", pr.Pos(loop.Pos()),
+				"row i is not copied (in.Slice(i,i+1)) into slot lens[p] of the buffer of partition p = shards[i]: rows reach another partition than the partitioner chose, or overwrite each other")
+			c.Check(incAt > copyAt && copyAt >= 0, fq+"|fill-count-advances-once-per-row", pr.Pos(loop.Pos()),
+				"the partition's fill count is not advanced exactly once after each row is buffered: the next row overwrites it (rows are lost) or a gap of stale rows is written")
+			c.Check(cntAt >= 0, fq+"|record-count-advances-per-row", pr.Pos(loop.Pos()),
+				"the per-partition record count committed with the output is no longer advanced per row")
+			// flush exactly when full, the whole buffer, then reset
+			okFlush, why := flush != nil, "no flush"
+			if flush != nil {
+				size := ""
+				ast.Inspect(fn.Body, func(n ast.Node) bool {
+					if a, ok := n.(*ast.AssignStmt); ok && len(a.Lhs) == 1 && len(a.Rhs) == 1 {
+						if ix, ok := a.Lhs[0].(*ast.IndexExpr); ok && expr(ix.X) == bufV {
+							if k, ok := a.Rhs[0].(*ast.CallExpr); ok && fn.Pkg.CalleeName(k) == "frame.Make" && len(k.Args) == 3 && expr(k.Args[1]) == expr(k.Args[2]) {
+								size = expr(k.Args[1])
+							}
+						}
+					}
+					return true
+				})
+				x, whenEq, okT := constTest(flush.Cond, func(s string) bool { return strings.ReplaceAll(s, " ", "") == lensV+"["+pV+"]" }, size)
+				_ = x
+				writes, resets := false, false
+				for _, st := range flush.Body.List {
+					ast.Inspect(st, func(m ast.Node) bool {
+						if k, ok := m.(*ast.CallExpr); ok && len(k.Args) == 2 && strings.HasSuffix(expr(k.Fun), ".Write") && strings.ReplaceAll(expr(k.Args[1]), " ", "") == bufV+"["+pV+"]" {
+							writes = true
+						}
+						return true
+					})
+					if a, ok := st.(*ast.AssignStmt); ok && len(a.Lhs) == 1 && strings.ReplaceAll(expr(a.Lhs[0]), " ", "") == lensV+"["+pV+"]" {
+						if v, isC := constInt(fn.Pkg, a.Rhs[0]); isC && v == 0 && writes {
+							resets = true
+						}
+					}
+				}
+				switch {
+				case size == "" || !okT || !whenEq:
+					okFlush, why = false, "the flush is not taken exactly when the fill count equals the buffer size "+size
+				case !writes || !resets:
+					okFlush, why = false, "the flush does not write the whole buffer and then reset the fill count"
+				}
+			}
+			c.Check(okFlush, fq+"|full-buffer-is-written-and-reset", pr.Pos(loop.Pos()),
+				"partition buffers are not flushed exactly when full ("+why+"): a full buffer is indexed past its end, or rows are written twice or not at all")
+			// final flush
+			okFinal := false
+			ast.Inspect(fn.Body, func(n ast.Node) bool {
+				r, ok := n.(*ast.RangeStmt)
+				if !ok || expr(r.X) != lensV || r.Pos() < loop.End() {
+					return true
+				}
+				p2, n2 := expr(r.Key), expr(r.Value)
+				skipOK, wr := false, false
+				for _, st := range r.Body.List {
+					if ifs, ok := st.(*ast.IfStmt); ok && len(ifs.Body.List) == 1 {
+						if b, ok := ifs.Body.List[0].(*ast.BranchStmt); ok && b.Tok == token.CONTINUE {
+							if okZ, _ := thenBranchIffZero(le, ifs.Cond, n2); okZ {
+								skipOK = true
+							}
+						}
+					}
+					ast.Inspect(st, func(m ast.Node) bool {
+						if k, ok := m.(*ast.CallExpr); ok && len(k.Args) == 2 && strings.HasSuffix(expr(k.Fun), ".Write") {
+							if s2, ok := ast.Unparen(k.Args[1]).(*ast.CallExpr); ok && fn.Pkg.CalleeName(s2) == "frame.Frame.Slice" && len(s2.Args) == 2 {
+								if sel, ok := s2.Fun.(*ast.SelectorExpr); ok && strings.ReplaceAll(expr(sel.X), " ", "") == bufV+"["+p2+"]" {
+									if v, isC := constInt(fn.Pkg, s2.Args[0]); isC && v == 0 && expr(s2.Args[1]) == n2 {
+										wr = true
+									}
+								}
+							}
+						}
+						return true
+					})
+				}
+				if skipOK && wr {
+					okFinal = true
+				}
+				return true
+			})
+			c.Check(okFinal, fq+"|remainder-is-written", pr.Pos(loop.End()),
+				"after the last row, the partially filled buffers are not each written as buf[p].Slice(0, lens[p]) (skipping exactly the empty ones): the tail of every partition is lost, or stale rows beyond the fill count are written")
+		}
+	}
+	// ------------------------------------------------------------ local
+	if fn := c.MustFn("exec.bufferOutput"); fn != nil {
+		fq := fn.QName()
+		le := newLinEnv(pr, fn)
+		le.defs = map[types.Object]ast.Expr{}
+		var loop *ast.ForStmt
+		var iv, pV, bufV, mV string
+		ast.Inspect(fn.Body, func(n ast.Node) bool {
+			f, ok := n.(*ast.ForStmt)
+			if !ok {
+				return true
+			}
+			v, _, okL := loopUpTo(fn, f)
+			if !okL {
+				return true
+			}
+			for _, st := range f.Body.List {
+				if a, ok := st.(*ast.AssignStmt); ok && len(a.Lhs) == 1 && len(a.Rhs) == 1 {
+					if ix, ok := a.Rhs[0].(*ast.IndexExpr); ok && expr(ix.Index) == v {
+						if tv := fn.Pkg.Info.Types[ix.X]; tv.Type != nil && typeString(tv.Type) == "[]int" {
+							loop, iv, pV = f, v, expr(a.Lhs[0])
+						}
+					}
+				}
+			}
+			return true
+		})
+		if loop == nil {
+			c.Fail(fq+"|partition-buffers", pr.Pos(fn.Body.Pos()), "bufferOutput's per-row partitioning loop was not found")
+			return
+		}
+		var grow *ast.IfStmt
+		okAppend := false
+		for _, st := range loop.Body.List {
+			switch x := st.(type) {
+			case *ast.AssignStmt:
+				if len(x.Lhs) != 1 || len(x.Rhs) != 1 {
+					continue
+				}
+				if k, ok := x.Rhs[0].(*ast.CallExpr); ok {
+					if expr(k.Fun) == "len" && len(k.Args) == 1 {
+						if ix, ok := k.Args[0].(*ast.IndexExpr); ok && expr(ix.Index) == pV {
+							mV, bufV = expr(x.Lhs[0]), expr(ix.X)
+						}
+					}
+					if fn.Pkg.CalleeName(k) == "frame.AppendFrame" && len(k.Args) == 2 && bufV != "" {
+						// buf[p][m-1] = AppendFrame(buf[p][m-1], in.Slice(i, i+1))
+						last := func(e ast.Expr) bool {
+							ix, ok := ast.Unparen(e).(*ast.IndexExpr)
+							if !ok || strings.ReplaceAll(expr(ix.X), " ", "") != bufV+"["+pV+"]" {
+								return false
+							}
+							return le.norm(ix.Index, 0).String() == (lin{mV: 1, "": -1}).String()
+						}
+						var inV string
+						if s2, ok := ast.Unparen(k.Args[1]).(*ast.CallExpr); ok {
+							if sel, ok := s2.Fun.(*ast.SelectorExpr); ok {
+								inV = expr(sel.X)
+							}
+						}
+						if last(x.Lhs[0]) && last(k.Args[0]) && sliceOfRow(fn, le, k.Args[1], inV, lin{iv: 1}) {
+							okAppend = true
+						}
+					}
+				}
+			case *ast.IfStmt:
+				grow = x
+			}
+		}
+		c.Check(okAppend, fq+"|row-i-appended-to-its-partition", pr.Pos(loop.Pos()),
+			"row i is not appended (in.Slice(i,i+1)) to the last frame of the buffer of partition p = shards[i], replacing that frame with the result: rows go to another partition, or the grown frame is dropped")
+		// a new frame exactly when none exists or the last is full; appended and counted
+		okGrow := false
+		if grow != nil && mV != "" {
+			good := true
+			for _, empty := range []bool{false, true} {
+				for _, full := range []bool{false, true} {
+					v, known := evalCond(grow.Cond, func(e ast.Expr) (bool, bool) {
+						if z, okZ := cmpAtomZero(le, e, mV, empty); okZ {
+							return z, true
+						}
+						be, ok := ast.Unparen(e).(*ast.BinaryExpr)
+						if ok && (be.Op == token.EQL || be.Op == token.NEQ) {
+							l, r := strings.ReplaceAll(expr(be.X), " ", ""), strings.ReplaceAll(expr(be.Y), " ", "")
+							if strings.HasSuffix(l, ".Cap()") && strings.HasSuffix(r, ".Len()") || strings.HasSuffix(l, ".Len()") && strings.HasSuffix(r, ".Cap()") {
+								return (be.Op == token.EQL) == full, true
+							}
+						}
+						return false, false
+					})
+					// when empty, fullness is irrelevant (short-circuit): require true
+					want := empty || full
+					if !known || v != want {
+						good = false
+					}
+				}
+			}
+			app, inc := false, false
+			for _, st := range grow.Body.List {
+				switch x := st.(type) {
+				case *ast.AssignStmt:
+					if len(x.Rhs) == 1 {
+						if k, ok := x.Rhs[0].(*ast.CallExpr); ok && expr(k.Fun) == "append" && strings.ReplaceAll(expr(x.Lhs[0]), " ", "") == bufV+"["+pV+"]" {
+							app = true
+						}
+					}
+				case *ast.IncDecStmt:
+					if expr(x.X) == mV && x.Tok == token.INC {
+						inc = true
+					}
+				}
+			}
+			okGrow = good && app && inc
+		}
+		c.Check(okGrow, fq+"|new-frame-exactly-when-needed", pr.Pos(loop.Pos()),
+			"a new buffer frame is not started exactly when the partition has none or its last frame is full (and then appended and counted): rows are appended to a full frame that is not the one kept, or index -1 is used")
+	}
+}
+
+// c05constructorsRedistribute (part of C05-R3): a redistributing constructor
+// never hands back the slice it was given.  Returning the argument skips the
+// shuffle, however redundant it may look: the argument may be keyed
+// differently (a Prefixed view changes the key columns without changing the
+// slice underneath).  One sanctioned exception: Reshard with the shard count
+// the slice already has (its contract is the shard count, not the grouping).
+func c05constructorsRedistribute(c *RC) {
+	pr := c.P
+	n := 0
+	for _, q := range []string{".Reduce", ".Fold", ".Cogroup", ".Reshuffle", ".Repartition", ".Reshard"} {
+		fn := c.MustFn(q)
+		if fn == nil {
+			continue
+		}
+		params := map[types.Object]bool{}
+		for _, f := range fn.Type.Params.List {
+			for _, nm := range f.Names {
+				if o := fn.Pkg.Info.Defs[nm]; o != nil {
+					ts := typeString(o.Type())
+					if ts == "Slice" || ts == "[]Slice" {
+						params[o] = true
+					}
+				}
+			}
+		}
+		var bad []string
+		inspectNoLit(fn.Body, func(nd ast.Node) bool {
+			r, ok := nd.(*ast.ReturnStmt)
+			if !ok || len(r.Results) != 1 {
+				return true
+			}
+			n++
+			// rooted at a Slice parameter?
+			e := ast.Unparen(r.Results[0])
+			for {
+				if ix, ok := e.(*ast.IndexExpr); ok {
+					e = ast.Unparen(ix.X)
+					continue
+				}
+				break
+			}
+			id, ok := e.(*ast.Ident)
+			if !ok || !params[fn.Pkg.Info.Uses[id]] {
+				return true
+			}
+			if q == ".Reshard" {
+				// sanctioned: under `slice.NumShard() == nshard`
+				for _, anc := range pathTo(fn.Body, r) {
+					if ifs, ok := anc.(*ast.IfStmt); ok && ifs.Body.Pos() <= r.Pos() && r.End() <= ifs.Body.End() {
+						if be, ok := ast.Unparen(ifs.Cond).(*ast.BinaryExpr); ok && be.Op == token.EQL {
+							t := strings.ReplaceAll(expr(be.X)+"|"+expr(be.Y), " ", "")
+							if strings.Contains(t, ".NumShard()") {
+								c.Except(q, "Reshard to the shard count the slice already has returns the slice: its contract is the number of shards")
+								return true
+							}
+						}
+					}
+				}
+			}
+			bad = append(bad, pr.Pos(r.Pos()))
+			return true
+		})
+		c.Check(len(bad) == 0, q+"|never-returns-its-argument", pr.Pos(fn.Body.Pos()),
+			strings.TrimPrefix(q, ".")+" returns the slice it was given ("+strings.Join(bad, ", ")+") instead of a slice that declares a shuffle dependency: the redistribution is skipped, so rows with equal keys stay wherever they were (e.g. after Prefixed changed the key columns)")
+	}
+	c.Floor("returns of redistributing constructors", n, 6)
+}
